@@ -71,6 +71,36 @@ def fam_job(fam, mask, H, W, ys=None, xs=None, **kw):
     elif fam == "crop_2":              # crop to the single zone 2; float zones raster with NaN elsewhere
         mode, lst, kind = "crop", [2], "tuple"
         cell = lambda r, c, k: 2 if k else alt(r, c, NAN, 1)
+    # ---- zone-id lists with duplicates, gaps, unsorted order, absent / negative / float ids: the zone that lies
+    #      in the gap of the list is NOT requested, and its cells sit wherever the mask has a non-kept cell
+    elif fam == "crop_dup_gap":        # (1, 1, 3): zone 2 is not requested
+        mode, dtype, lst, kind = "crop", "int64", [1, 1, 3], "tuple"
+        cell = lambda r, c, k: alt(r, c, 1, 3) if k else alt(r, c, 2, 0)
+    elif fam == "crop_unsorted_dup":   # [3, 1, 3]
+        mode, dtype, lst = "crop", "int32", [3, 1, 3]
+        cell = lambda r, c, k: alt(r, c, 3, 1) if k else alt(r, c, 2, 4)
+    elif fam == "crop_7_5_5":          # (7, 5, 5): zone 6 is not requested
+        mode, dtype, lst, kind = "crop", "int64", [7, 5, 5], "tuple"
+        cell = lambda r, c, k: alt(r, c, 7, 5) if k else alt(r, c, 6, 0)
+    elif fam == "crop_absent_negative":  # [-2, 9, 4]: zone 9 does not occur, zones -1, 0, 3 are not requested
+        mode, dtype, lst = "crop", "int64", [-2, 9, 4]
+        cell = lambda r, c, k: alt(r, c, -2, 4) if k else alt(r, c, 3, 0 if r % 2 == 0 else -1)
+    elif fam == "crop_float_ids":      # float zones, ids [2.5, 0.5]; 1.5 lies between them, NaN elsewhere
+        mode, lst, kw = "crop", [5, 1], dict(kw, scale=0.5)
+        cell = lambda r, c, k: alt(r, c, 5, 1) if k else alt(r, c, 3, NAN)
+    # ---- 64-bit integers that float64 cannot tell apart (rank mode: code = index into the table)
+    elif fam == "trim_i64_neighbours":   # values=[2**53]; 2**53 +- 1 are kept
+        dtype, lst = "int64", [1]
+        kw = dict(kw, table=[2 ** 53 - 1, 2 ** 53, 2 ** 53 + 1, 2 ** 53 + 2])
+        cell = lambda r, c, k: alt(r, c, 2, 0) if k else 1
+    elif fam == "trim_i64_negative":     # values=[-2**53 - 1, -2**62]; -2**53, -2**53 - 2, -2**62 + 1 are kept
+        dtype, lst = "int64", [2, 0]
+        kw = dict(kw, table=[-2 ** 62, -2 ** 62 + 1, -2 ** 53 - 1, -2 ** 53, 7])
+        cell = lambda r, c, k: alt(r, c, 3, 1) if k else alt(r, c, 2, 0)
+    elif fam == "crop_i64_neighbours":   # zones 2**53 + 1 requested; 2**53 and 2**53 + 2 are other zones
+        mode, dtype, lst = "crop", "int64", [1]
+        kw = dict(kw, table=[2 ** 53, 2 ** 53 + 1, 2 ** 53 + 2])
+        cell = lambda r, c, k: 1 if k else alt(r, c, 0, 2)
     else:
         raise ValueError(fam)
     data = [[cell(r, c, mask[r][c]) for c in range(W)] for r in range(H)]
@@ -83,6 +113,9 @@ def fam_job(fam, mask, H, W, ys=None, xs=None, **kw):
 
 
 FAMILIES = ["int_0", "float_default_nan", "float_nan_0", "float_0", "crop_1_2", "crop_2", "int_0_2"]
+# id lists with duplicates / gaps / absent / negative / float ids, and 64-bit neighbours of an excluded value
+FAMILIES2 = ["crop_dup_gap", "crop_unsorted_dup", "crop_7_5_5", "crop_absent_negative", "crop_float_ids",
+             "trim_i64_neighbours", "trim_i64_negative", "crop_i64_neighbours"]
 
 
 def all_masks(H, W):
@@ -118,7 +151,7 @@ def random_jobs(rng, n):
             mask = [[1 if rng.random() < dens else 0 for _ in range(W)] for _ in range(H)]
             if not any(map(any, mask)):
                 mask[rng.randrange(H)][rng.randrange(W)] = 1
-        fam = rng.choice(FAMILIES)
+        fam = rng.choice(FAMILIES + FAMILIES2)
         ys = rng.sample(range(-40, 40), H)
         xs = rng.sample(range(-40, 40), W)
         o = rng.random()
@@ -129,7 +162,9 @@ def random_jobs(rng, n):
         j = fam_job(fam, mask, H, W, ys=ys, xs=xs)
         j["layout"] = rng.choice(["C", "F", "view", "T", "rev"])
         j["dims"] = rng.choice([["y", "x"], ["lat", "lon"], ["row", "col"]])
-        if j["dtype"] == "float64":
+        if fam in FAMILIES2:
+            pass                                   # dtype / scale / table belong to the family
+        elif j["dtype"] == "float64":
             j["dtype"] = rng.choice(["float64", "float32"])
             j["scale"] = rng.choice([1, 0.5, 2.5])
         elif j["dtype"] == "int64":
@@ -236,6 +271,11 @@ def replay_jobs(rng, thorough):
                 if (H, W) in mid and not thorough and fam not in main and rng.random() >= 1 / 8:
                     continue
                 yield mark_proper(fam_job(fam, mask, H, W), mask)
+            for fam in FAMILIES2:
+                # the special id lists / 64-bit families: every mask of the small grids, a seeded share of 3x4, 4x3
+                if (H, W) in mid and rng.random() >= (1 / 2 if thorough else 1 / 16):
+                    continue
+                yield mark_proper(fam_job(fam, mask, H, W), mask)
     for mask in all_masks(4, 4):
         for fam in FAMILIES:
             # thorough: the full 4x4 mask space in the five main encodings; otherwise a seeded 1/64 sample
@@ -296,7 +336,9 @@ def run(ctx):
         mc(ctx, "trim_%dx%d" % (H, W), H, W, [0, 1], [[0]], "trim")
     # three-valued rasters incl. NaN cells x lists with and without NaN (NaN kept unless listed)
     mc(ctx, "trim_nan_2x3", 2, 3, [0, 1, NAN], nanlists + [[0, 1]], "trim")
-    mc(ctx, "crop_2x3", 2, 3, [0, 1, 2, NAN], [[1], [1, 2], [2, 1]], "crop")
+    # crop: id lists incl. duplicates with a gap (zone 2 is NOT requested by (1, 1, 3))
+    mc(ctx, "crop_2x3", 2, 3, [0, 1, 2, 3], [[1], [2, 1], [1, 1, 3], [3, 1, 3]], "crop")
+    mc(ctx, "crop_nan_zones_2x2", 2, 2, [0, 1, 2, NAN], [[1], [1, 2]], "crop")
     if thorough:
         mc(ctx, "trim_4x4", 4, 4, [0, 1], [[0]], "trim", live=False)
         mc(ctx, "trim_nan_3x3", 3, 3, [0, 1, NAN], nanlists + [[0, 1]], "trim", live=False)
